@@ -89,6 +89,11 @@ def main(tier: str) -> int:
     run.assumptions += ["the independent reader (harness/tablelib.py:project_element) is trusted", "TLC/lxml trusted"]
     budgets = {"walks": (1200, 10), "traces": (400, 14)} if tier == "quick" else {"walks": (20000, 14), "traces": (8000, 16)}
     run_table_property(run, tier, verdict_kinds=("live", "fresh", "exc"), budgets=budgets, parts=("walks", "traces"))
+    # the whole-table transformations, which rebuild or trim the stored runs, after cache-filling reads
+    run_table_property(run, tier, verdict_kinds=("live", "fresh", "exc"), parts=("traces",),
+                       budgets={"traces": (300, 8) if tier == "quick" else (6000, 10),
+                                "ops": ["optimize_width", "optimize_width", "rstrip", "transpose", "transpose_area", "set_cell", "set_value", "append_row",
+                                        "delete_column", "insert_column", "delete_row", "append_cell"]})
     # Vault.tla: position map edited in place + item cache; reads through them must be true
     run_vault_part(run, tier, verdict_kinds=("live",))
     save_reload_histories(run, 40 if tier == "quick" else 1500, 8)
